@@ -129,10 +129,19 @@ func (w *world) opt(o POpt) (errdef.Option, string) {
 		}
 		return errdef.StackSource(o.A, o.D), fmt.Sprintf("(OSource %s %s)", cZ(int64(a)), cZ(int64(o.D)))
 	case "fmt":
+		if o.ID == 0 { // a nil function resets to the default presentation
+			return errdef.Formatter(nil), "(OFormatter 0%N)"
+		}
 		return errdef.Formatter(fmtByID(o.ID)), "(OFormatter " + cN(o.ID) + ")"
 	case "json":
+		if o.ID == 0 {
+			return errdef.JSONMarshaler(nil), "(OJson 0%N)"
+		}
 		return errdef.JSONMarshaler(jsonByID(o.ID)), "(OJson " + cN(o.ID) + ")"
 	case "log":
+		if o.ID == 0 {
+			return errdef.LogValuer(nil), "(OLog 0%N)"
+		}
 		return errdef.LogValuer(logByID(o.ID)), "(OLog " + cN(o.ID) + ")"
 	}
 	return errdef.StackSource(0, 0), "ONoop"
@@ -534,7 +543,13 @@ func genOpts(r *Rng, cfg p1Cfg, pool []gval, max int) []POpt {
 			}
 			out = append(out, o)
 		case x == 9 && cfg.Presenters:
-			out = append(out, POpt{T: Pick(r, []string{"fmt", "json", "log"}), ID: 1 + r.Intn(2)})
+			// id 0 is the nil function (resets to the default); sometimes the same presenter
+			// is given twice in one list (the last one wins, a nil one resets)
+			t := Pick(r, []string{"fmt", "json", "log"})
+			out = append(out, POpt{T: t, ID: r.Intn(3)})
+			if r.Chance(1, 3) {
+				out = append(out, POpt{T: t, ID: r.Intn(3)})
+			}
 		case x == 10:
 			out = append(out, POpt{T: "noop"})
 		}
